@@ -11,6 +11,7 @@ import random
 from fractions import Fraction
 
 import rates as R
+import ratesfail as RF
 from common import run_harness, run_model, VERIF
 
 REVAL = 1      # the model follows the code after the fix of C13 (re-validation of cached years)
@@ -253,6 +254,17 @@ def run(res, ctx):
         k = min(1000, n - done)
         check_batch(res, ctx, [("random",) + gen_history(rng) for _ in range(k)])
         done += k
+    # failure paths: scripted cache read / write / remote request outcomes, damaged cache files
+    # (model: coq/Model/RatesFail.v; C13_cache_failures_transparent, C13_corrupt_cache_rows,
+    # C12_remote_failure_is_error)
+    rng_f = random.Random(seed * 7919 + 1313)
+    RF.check_batch(res, ctx, RF.corpus())
+    nf = 1600 if tier == "quick" else 16000
+    done = 0
+    while done < nf:
+        k = min(800, nf - done)
+        RF.check_batch(res, ctx, [("random-failures",) + RF.gen_case(rng_f, gen_history, (done + j) % 2 == 1) for j in range(k)])
+        done += k
     if tier == "thorough":
         buf = []
         for c in exhaustive():
@@ -296,8 +308,10 @@ def run(res, ctx):
     })
     res.assumptions += [
         "premise of the property: the remote of a run = truth restricted to days before `avail` with today <= avail <= today+1; today and avail non-decreasing over the runs; remote constant during a run and never failing",
-        "cache read/write errors are not modelled; histories over an unwritable cache directory are judged on the implementation alone (answers = no-cache answers, at most one download per year per run)",
+        "histories over an unwritable cache DIRECTORY (real CsvRatesCache errors) are judged on the implementation alone (answers = no-cache answers, at most one download per year per run); scripted cache read / write / request failures and damaged cache files are modelled (Model/RatesFail.v) and run against a RatesCache / HttpRequester of the harness that fail as scripted around the real caches",
+        "a failed cache write leaves the cache as it was (true of CsvRatesCache: the rename is its last step; the harness cache does not call the real writer on a scripted failure)",
     ]
+    res.coverage["failure_paths"] = {k: v for k, v in sorted(st.items()) if k.startswith("failures-") or k.startswith("damaged") or k.startswith("reader-on")}
 
 
 def replay(res, ctx, path):
@@ -309,6 +323,11 @@ def replay(res, ctx, path):
     if not case:
         print("replay: this replay file names no input (%s)" % rep.get("what", "")[:200])
         return 1
+    if (rep.get("input") or {}).get("replay_kind") == "failures":
+        name, truth, runs, cache = case
+        runs = [dict(r, damage=[(y, [tuple(e) for e in ed]) for y, ed in r.get("damage", [])]) for r in runs]
+        RF.check_batch(r2, ctx, [(name, [R.load_obs(o) for o in truth], runs, cache)])
+        return R.replay_report(r2, ctx, "history under a failure script")
     name, truth, runs = case
     # the cache kind of the original case
     kind = (rep.get("input") or {}).get("cache", "mem")
